@@ -1,32 +1,52 @@
 import MayVerif.Proof.Io.Step
+import MayVerif.Proof.Io.KO
+import MayVerif.Proof.Io.WO
+import MayVerif.Proof.Io.UO
 import MayVerif.Proof.Io.K5
 import MayVerif.Proof.Io.W5
 import MayVerif.Proof.Io.U5
 import MayVerif.Proof.Io.TD
+import MayVerif.Proof.Io.K8
+import MayVerif.Proof.Io.W8
+import MayVerif.Proof.Io.U8
 namespace MayVerif.Io
 
-/-- everything that is invariant of the fixed code (`init`) -/
+/-- everything that is invariant of the repaired code (`init`) -/
 structure InvT (st : St) : Prop where
   i : Inv st
   i3 : Inv3 st
+  i7 : Inv7 st
   i5 : Inv5 st
   i6 : Inv6 st
+  i8 : Inv8 st
 
-theorem invT_init (co : Co → Bool) : InvT (init co) := ⟨inv_init co, inv3_init co, inv5_init co, inv6_init co⟩
+theorem invT_init (co : Co → Bool) : InvT (init co) :=
+  ⟨inv_init co, inv3_init co, inv7_init co, inv5_init co, inv6_init co, inv8_init co⟩
 
 theorem invT_step (st st' : St) (a : Actor) (e : Env) (h : InvT st) (hs : step st a e = some st') : InvT st' := by
-  obtain ⟨hi, h3, h5, h6⟩ := h
-  refine ⟨inv_step _ _ _ _ hi hs, inv3_step _ _ _ _ h3 hs, ?_, ?_⟩
+  obtain ⟨hi, h3, h7, h5, h6, h8⟩ := h
+  have hc := hi.c
+  refine ⟨inv_step _ _ _ _ hi hs, inv3_step _ _ _ _ h3 hs, ?_, ?_, ?_, ?_⟩
   · cases a with
-    | u c => exact inv5_ustep st st' c _ e hi.i1 h3 h5 rfl hs
-    | k i => exact inv5_kstep st st' i _ e hi.i1 h3 h5 rfl hs
-    | w i => exact inv5_wstep st st' i _ e hi.i1 h3 h5 rfl hs
+    | u c => exact inv7_ustep st st' c _ e hc hi.i1 h3 h7 rfl hs
+    | k i => exact inv7_kstep st st' i _ e hc hi.i1 h3 h7 rfl hs
+    | w i => exact inv7_wstep st st' i _ e hc hi.i1 h3 h7 rfl hs
+    | env => exact inv7_estep st st' e h7 hs
+  · cases a with
+    | u c => exact inv5_ustep st st' c _ e hc hi.i1 h3 h7 h5 rfl hs
+    | k i => exact inv5_kstep st st' i _ e hc hi.i1 h3 h7 h5 rfl hs
+    | w i => exact inv5_wstep st st' i _ e hc hi.i1 h3 h7 h5 rfl hs
     | env => exact inv5_estep st st' e h5 hs
   · cases a with
-    | u c => exact inv6_ustep st st' c _ e hi.i1 h5 h6 rfl hs
-    | k i => exact inv6_kstep st st' i _ e hi.i1 h5 h6 rfl hs
-    | w i => exact inv6_wstep st st' i _ e hi.i1 h5 h6 rfl hs
+    | u c => exact inv6_ustep st st' c _ e hc hi.i1 h3 h7 h6 rfl hs
+    | k i => exact inv6_kstep st st' i _ e hc hi.i1 h3 h7 h6 rfl hs
+    | w i => exact inv6_wstep st st' i _ e hc hi.i1 h3 h7 h6 rfl hs
     | env => exact inv6_estep st st' e h6 hs
+  · cases a with
+    | u c => exact inv8_ustep st st' c _ e hc hi.i1 hi.i2 h8 rfl hs
+    | k i => exact inv8_kstep st st' i _ e hc hi.i1 hi.i2 h8 rfl hs
+    | w i => exact inv8_wstep st st' i _ e hc hi.i1 hi.i2 h8 rfl hs
+    | env => exact inv8_estep st st' e h8 hs
 
 theorem invT_run (st : St) (sched : List (Actor × Env)) (h : InvT st) : InvT (run st sched) := by
   induction sched generalizing st with
@@ -37,42 +57,5 @@ theorem invT_run (st : St) (sched : List (Actor × Env)) (h : InvT st) : InvT (r
     split
     · next st' hs => exact ih _ (invT_step _ _ _ _ h hs)
     · exact ih _ h
-
-/-- which code the model is of never changes -/
-theorem cfg_step (st st' : St) (a : Actor) (e : Env) (hs : step st a e = some st') :
-    st'.fixFlag = st.fixFlag ∧ st'.fixDis = st.fixDis ∧ st'.regFirst = st.regFirst := by
-  cases a with
-  | u c =>
-    simp only [step] at hs
-    generalize st.upc c = pc at hs
-    cases pc <;> cases e <;> simp only [ustep, resumeU, finish, disarm] at hs <;> (repeat' (split at hs)) <;>
-      first | contradiction | (simp only [Option.some.injEq] at hs; subst hs; exact ⟨rfl, rfl, rfl⟩)
-  | k i =>
-    simp only [step] at hs
-    generalize st.kpc i = pc at hs
-    cases pc <;> simp only [kstep, resumeU, finish, disarm, schedule, xtakeStep] at hs <;> (repeat' (split at hs)) <;>
-      first | contradiction | (simp only [Option.some.injEq] at hs; subst hs; exact ⟨rfl, rfl, rfl⟩)
-  | w i =>
-    simp only [step] at hs
-    generalize st.wpc i = pc at hs
-    cases pc <;> cases e <;> simp only [wstep, resumeU, finish, disarm, schedule, xtakeStep] at hs <;> (repeat' (split at hs)) <;>
-      first | contradiction | (simp only [Option.some.injEq] at hs; subst hs; exact ⟨rfl, rfl, rfl⟩)
-  | env =>
-    simp only [step] at hs
-    cases e <;> simp only [estep] at hs <;> first | contradiction | (simp only [Option.some.injEq] at hs; subst hs; exact ⟨rfl, rfl, rfl⟩)
-
-theorem cfg_run (st : St) (sched : List (Actor × Env)) :
-    (run st sched).fixFlag = st.fixFlag ∧ (run st sched).fixDis = st.fixDis ∧ (run st sched).regFirst = st.regFirst := by
-  induction sched generalizing st with
-  | nil => exact ⟨rfl, rfl, rfl⟩
-  | cons ae r ih =>
-    obtain ⟨a, e⟩ := ae
-    simp only [run]
-    split
-    · next st' hs =>
-      have h1 := cfg_step _ _ _ _ hs
-      have h2 := ih st'
-      exact ⟨h2.1.trans h1.1, h2.2.1.trans h1.2.1, h2.2.2.trans h1.2.2⟩
-    · exact ih st
 
 end MayVerif.Io
